@@ -40,7 +40,7 @@ def generate(rng, n, tier):
             for s in nodes:
                 for t in nodes:
                     if s != t:
-                        cases.append({'edges': g, 'src': s, 'tgt': t})
+                        cases.append({'edges': g, 'src': s, 'tgt': t, 'shared': rng.random() < 0.3, 'warm': rng.choice(nodes)})
     for k in range(n):
         g = gen_graph(rng, small=(k % 3 == 0))
         nodes = sorted({e[1] for e in g} | {e[2] for e in g})
@@ -48,14 +48,20 @@ def generate(rng, n, tier):
             continue
         s = rng.choice(nodes)
         t = rng.choice([v for v in nodes if v != s])
-        cases.append({'edges': g, 'src': s, 'tgt': t})
+        cases.append({'edges': g, 'src': s, 'tgt': t, 'shared': rng.random() < 0.3, 'warm': rng.choice(nodes)})
     return cases
 
 
 def run_impl(case):
     net = build_net(case['edges'])
-    tr = net.shortest_path(case['src'], case['tgt'])
-    d = net.shortest_distance(case['src'], case['tgt'])
+    if case.get('shared'):          # the optional output dictionary, reused across successive calls from the same source as the API allows
+        reg = {}
+        net.shortest_path(case['src'], case['warm'], output_dict=reg)
+        tr = net.shortest_path(case['src'], case['tgt'], output_dict=reg)
+        d = net.shortest_distance(case['src'], case['tgt'], output_dict=reg)
+    else:
+        tr = net.shortest_path(case['src'], case['tgt'])
+        d = net.shortest_distance(case['src'], case['tgt'])
     if tr is None:
         return {'path': None, 'dist': d}
     return {'path': [int(v) for v in tr.path], 'geom': [[o.position.getX(), o.position.getY()] for o in tr], 'dist': d}
